@@ -25,13 +25,16 @@ REL_OFFSET = {"today": 0, "tomorrow": 1, "aftertomorrow": 2, "yesterday": -1, "b
 
 DOW = [
     ["montag", "montags", "monday", "mondays", "mon", "mo", "mon.", "mo."],
-    ["dienstag", "dienstags", "dinstag", "die", "di", "di.", "die.", "tuesday", "tuesdays", "tue", "tu", "tue."],
+    ["dienstag", "dienstags", "dinstag", "die", "di", "di.", "die.", "tuesday", "tuesdays", "tue", "tu", "tue.", "tu.", "dinstags"],
     ["mittwoch", "mittwochs", "mi", "mi.", "wednesday", "wednesda", "wed", "wed."],
-    ["donnerstag", "donerstag", "donnerstags", "do", "don", "do.", "thursday", "thursdays", "thu", "thur", "thu."],
+    ["donnerstag", "donerstag", "donnerstags", "do", "don", "do.", "thursday", "thursdays", "thu", "thur", "thu.", "thur.", "don.", "donerstags"],
     ["freitag", "freitags", "friday", "fridays", "fri", "fr", "fr.", "fri."],
     ["samstag", "samstags", "sonnabend", "sonnabends", "saturday", "saturdays", "sat", "sa", "sa.", "sat."],
-    ["sonntag", "sonntags", "so", "so.", "sunday", "sundays", "sun", "su", "sun."],
+    ["sonntag", "sonntags", "so", "so.", "sunday", "sundays", "sun", "su", "sun.", "su."],
 ]
+DOW_DE_SPELLINGS = {"montag", "montags", "mo", "mo.", "dienstag", "dienstags", "dinstag", "dinstags", "die", "di", "di.", "die.", "mittwoch", "mittwochs", "mi", "mi.",
+                    "donnerstag", "donerstag", "donnerstags", "donerstags", "do", "don", "do.", "don.", "freitag", "freitags", "fr", "fr.", "samstag", "samstags",
+                    "sonnabend", "sonnabends", "sa", "sa.", "sonntag", "sonntags", "so", "so."}
 # full names only (unambiguous in longer compositions)
 DOW_FULL_EN = ["monday", "tuesday", "wednesday", "thursday", "friday", "saturday", "sunday"]
 DOW_FULL_DE = ["montag", "dienstag", "mittwoch", "donnerstag", "freitag", "samstag", "sonntag"]
@@ -304,6 +307,10 @@ NUM_DE = ["ein", "zwei", "drei", "vier", "fünf", "sechs", "sieben", "acht", "ne
           "zweiundzwanzig", "dreiundzwanzig", "vierundzwanzig", "fünfundzwanzig", "sechsundzwanzig", "siebenundzwanzig",
           "achtundzwanzig", "neunundzwanzig", "dreißig", "einunddreißig"]
 NUM_ONE_VARIANTS = ["a", "an", "one", "ein", "eine", "eins"]
+# spelling variants the number patterns deliberately accept (optional letters): 'und' without its d, 'sechszehn', 'ss' for 'ß'
+NUM_DE_VARIANTS = {16: ["sechszehn"], 30: ["dreissig"], 31: ["einunddreissig", "einundreißig", "einundreissig"]}
+for _n in range(21, 30):
+    NUM_DE_VARIANTS[_n] = [NUM_DE[_n - 1].replace("und", "un")]
 HALF_FORMS = {
     "half an hour": (30, "minutes"), "half a day": (12, "hours"), "halbe stunde": (30, "minutes"),
     "1/2 hour": (30, "minutes"), "half hour": (30, "minutes"), "half day": (12, "hours"), "1/2 day": (12, "hours"),
@@ -337,6 +344,8 @@ DAY_FORMS = {
     "doy/d. Monat": lambda p: "%d. %s" % (p["d"], MONTH_DE[p["m"] - 1]),
     "doy/d Month": lambda p: "%d %s" % (p["d"], MONTH_EN[p["m"] - 1]),
 }
+# every weekday spelling of the specification (abbreviations, dotted forms, supported typos): used by C20 with a few clocks only
+DAY_FORMS_SPELLED = {"dow/spelled": lambda p: p["w"], "dow/am spelled": lambda p: "am " + p["w"], "dow/on spelled": lambda p: "on " + p["w"]}
 COMPOSE_CONN = {"_": " ", "at": " at ", "um": " um "}
 
 # ---------------------------------------------------------------------------
